@@ -41,8 +41,13 @@
 (* sync.RWMutex as Go implements it: Lock first takes the writers' mutex   *)
 (* (S.w) - from that moment no new reader gets in: "a pending writer       *)
 (* blocks new readers" - and then waits until the readers inside have left.*)
-(* Sending an answer is not a blocking step here: the clients read their   *)
-(* sockets (assumption of the check, see design-notes/C12.md).             *)
+(* Sending an answer is a blocking write on the socket of the caller       *)
+(* (channel.SendReply -> endPoint.Send -> Message.Write, no deadline): it  *)
+(* returns at once when the client reads its socket.  NoRead are the       *)
+(* hostile connections whose client does NOT read: the socket takes OutCap *)
+(* answers, the next SendReply to it waits until the connection is closed. *)
+(* The property configurations have NoRead = {}: with a connection in      *)
+(* NoRead the code AS FOUND loses OthersServed (finding, not a deviation). *)
 (*                                                                         *)
 (* Named deviations (all FALSE in the property configurations):            *)
 (*  Dev_ReceiveHoldsLockWhileEnqueuing  serviceImpl.Receive releases the   *)
@@ -55,7 +60,7 @@
 (*        channel: a consumer that looked the box up before the removal    *)
 (*        sends on a closed channel (panic: the process dies)              *)
 (***************************************************************************)
-EXTENDS Naturals, Sequences, FiniteSets, TLC
+EXTENDS Naturals, Sequences, FiniteSets, TLC, Json
 
 CONSTANTS
   HConns,      \* connections of the hostile client
@@ -66,7 +71,10 @@ CONSTANTS
   MaxFlood,    \* at most that many call + post requests (all connections together)
   MaxReg,      \* at most that many registerEvent, and that many unregisterEvent requests
   Closes,      \* hostile connections that may be closed (after their last request)
+  PMax,        \* number of objects the other client asks (each at most once)
   QCap, BCap,  \* capacity of a handler queue (10 in the code) / of a mailbox (10)
+  NoRead,      \* hostile connections whose client does not read its socket
+  OutCap,      \* answers the socket of such a connection takes
   Dev_ReceiveHoldsLockWhileEnqueuing, Dev_DispatchBlocksOnFullQueue,
   Dev_ConsumerGivesUpOnFullMailbox, Dev_RemoveClosesMailbox
 
@@ -84,7 +92,6 @@ VARIABLES
   wire,      \* wire[c]: requests written by the client, not yet read by the reader
   eof,       \* hostile connections closed after their last request (chosen initially)
   script,    \* script[c]: what the hostile client writes on connection c (chosen initially; the exported schedule)
-  env,       \* history: requests of the other client and the release, in order
   rd,        \* rd[c] = [pc, m]   reader goroutine
   H,         \* H[c]: owner of the handlersMutex of end point c
   Q,         \* Q[c]: the queue of the server's handler on c (chan *Message, QCap)
@@ -98,10 +105,11 @@ VARIABLES
   subs,      \* subs[o]: connections with a disconnect handler made by a registerEvent on o
   released,  \* the environment has released the slow method
   pasked,    \* objects the other client has asked
+  out,       \* out[c]: answers written to a connection of NoRead
   pres,      \* pres[o]: what the other client got ("" nothing yet, "reply", "notfound", "blocked")
   crashed    \* the process died
 
-vars == <<wire, eof, script, env, rd, H, Q, qclosed, cs, S, table, B, bclosed, mb, subs, released, pasked, pres, crashed>>
+vars == <<wire, eof, script, rd, H, Q, qclosed, cs, S, table, B, bclosed, mb, subs, released, pasked, out, pres, crashed>>
 
 (* the scripts of the hostile client *)
 RECURSIVE SeqsUpTo(_, _)
@@ -111,19 +119,18 @@ SeqsUpTo(c, n) == IF n = 0 THEN {<<>>}
 Items(f) == UNION {{<<c, i>> : i \in 1..Len(f[c])} : c \in HConns}
 CountOf(f, ks, o) == Cardinality({it \in Items(f) : f[it[1]][it[2]].k \in ks /\ (o = "" \/ f[it[1]][it[2]].o = o)})
 ScriptOk(f) ==
-  /\ \A c \in HConns : f[c] \in SeqsUpTo(c, MaxLen)
   /\ CountOf(f, {"slow"}, "") <= 1
   /\ \A o \in HTargets : CountOf(f, {"term"}, o) <= 1
   /\ CountOf(f, {"call", "post"}, "") <= MaxFlood
   /\ CountOf(f, {"reg"}, "") <= MaxReg /\ CountOf(f, {"unreg"}, "") <= MaxReg
-Scripts == {f \in [HConns -> UNION {SeqsUpTo(c, MaxLen) : c \in HConns}] : ScriptOk(f)}
+Scripts == LET SS == [c \in HConns |-> SeqsUpTo(c, MaxLen)] IN
+           {f \in [HConns -> UNION {SS[c] : c \in HConns}] : (\A c \in HConns : f[c] \in SS[c]) /\ ScriptOk(f)}
 Named(o) == CountOf(script, {"term"}, o) > 0     \* objects a terminate request names: removal is their documented purpose
 
 Init ==
   /\ script \in Scripts
   /\ wire = [c \in Conns |-> IF c \in HConns THEN script[c] ELSE <<>>]
   /\ eof \in SUBSET (HConns \cap Closes)
-  /\ env = <<>>
   /\ rd = [c \in Conns |-> [pc |-> "read", m |-> NoMsg]]
   /\ H = [c \in Conns |-> NoG]
   /\ Q = [c \in Conns |-> <<>>] /\ qclosed = {}
@@ -133,6 +140,7 @@ Init ==
   /\ B = [o \in Objs |-> <<>>] /\ bclosed = {}
   /\ mb = [o \in Objs |-> [pc |-> "idle", m |-> NoMsg]]
   /\ subs = [o \in Objs |-> {}]
+  /\ out = [c \in Conns |-> 0]
   /\ released = FALSE /\ pasked = {} /\ pres = [o \in Objs |-> ""]
   /\ crashed = FALSE
 
@@ -140,56 +148,48 @@ Init ==
 (* the environment and the other client *)
 Release ==
   /\ ~released /\ released' = TRUE
-  /\ env' = Append(env, Msg("release", "", ""))
-  /\ UNCHANGED <<wire, eof, script, rd, H, Q, qclosed, cs, S, table, B, bclosed, mb, subs, pasked, pres, crashed>>
+  /\ UNCHANGED <<wire, eof, script, rd, H, Q, qclosed, cs, S, table, B, bclosed, mb, subs, pasked, out, pres, crashed>>
 
 PSend(o) ==           \* one request at a time, every object once, at any moment
-  /\ o \in Objs \ pasked /\ \A x \in pasked : pres[x] # ""
+  /\ o \in Objs \ pasked /\ Cardinality(pasked) < PMax /\ \A x \in pasked : pres[x] # ""
   /\ wire' = [wire EXCEPT ![P] = Append(@, Msg("call", o, P))]
   /\ pasked' = pasked \cup {o}
-  /\ env' = Append(env, Msg("call", o, P))
-  /\ UNCHANGED <<eof, script, rd, H, Q, qclosed, cs, S, table, B, bclosed, mb, subs, released, pres, crashed>>
+  /\ UNCHANGED <<eof, script, rd, H, Q, qclosed, cs, S, table, B, bclosed, mb, subs, released, out, pres, crashed>>
 
 Answer(m, what) == IF m.c = P /\ m.k = "call" THEN [pres EXCEPT ![m.o] = what] ELSE pres
 
 -----------------------------------------------------------------------------
 (* endPoint.process: the reader goroutine of connection c *)
-RdTake(c) ==          \* msg.Read(e.stream); dispatch: e.handlersMutex.Lock()
+RdDispatch(c) ==      \* msg.Read(e.stream); dispatch: handlersMutex.Lock(); select { case h.consumer <- msg: default: drop,
+                      \* error answer to a call }; Unlock.  Nothing blocks between Lock and Unlock: one step (the deviation
+                      \* stops in the middle, the mutex held)
   /\ rd[c].pc = "read" /\ wire[c] # <<>> /\ H[c] = NoG
-  /\ rd' = [rd EXCEPT ![c] = [pc |-> "disp", m |-> Head(wire[c])]]
   /\ wire' = [wire EXCEPT ![c] = Tail(@)]
-  /\ H' = [H EXCEPT ![c] = Rd(c)]
-  /\ UNCHANGED <<eof, script, env, Q, qclosed, cs, S, table, B, bclosed, mb, subs, released, pasked, pres, crashed>>
-RdDispatch(c) ==      \* select { case h.consumer <- msg: default: drop, error answer to a call }; Unlock
-  /\ rd[c].pc = "disp"
-  /\ LET m == rd[c].m IN
+  /\ LET m == Head(wire[c]) IN
      IF Len(Q[c]) < QCap
        THEN /\ Q' = [Q EXCEPT ![c] = Append(@, m)]
-            /\ H' = [H EXCEPT ![c] = NoG]
-            /\ rd' = [rd EXCEPT ![c] = [pc |-> "read", m |-> NoMsg]]
-            /\ UNCHANGED pres
+            /\ UNCHANGED <<H, rd, pres>>
        ELSE IF Dev_DispatchBlocksOnFullQueue /\ m.k = "post"
-         THEN /\ rd' = [rd EXCEPT ![c].pc = "wait"]      \* h.consumer <- msg with handlersMutex held
-              /\ UNCHANGED <<Q, H, pres>>
-         ELSE /\ H' = [H EXCEPT ![c] = NoG]              \* dropped; a call is answered "consumer blocked"
-              /\ rd' = [rd EXCEPT ![c] = [pc |-> "read", m |-> NoMsg]]
-              /\ pres' = Answer(m, "blocked")
-              /\ UNCHANGED Q
-  /\ UNCHANGED <<wire, eof, script, env, qclosed, cs, S, table, B, bclosed, mb, subs, released, pasked, crashed>>
+         THEN /\ rd' = [rd EXCEPT ![c] = [pc |-> "wait", m |-> m]]      \* h.consumer <- msg with handlersMutex held
+              /\ H' = [H EXCEPT ![c] = Rd(c)]
+              /\ UNCHANGED <<Q, pres>>
+         ELSE /\ pres' = Answer(m, "blocked")                           \* dropped; a call is answered "consumer blocked"
+              /\ UNCHANGED <<Q, H, rd>>
+  /\ UNCHANGED <<eof, script, qclosed, cs, S, table, B, bclosed, mb, subs, released, pasked, out, crashed>>
 RdWait(c) ==          \* (deviation) the blocked send completes; Unlock
   /\ rd[c].pc = "wait" /\ Len(Q[c]) < QCap
   /\ Q' = [Q EXCEPT ![c] = Append(@, rd[c].m)]
   /\ H' = [H EXCEPT ![c] = NoG]
   /\ rd' = [rd EXCEPT ![c] = [pc |-> "read", m |-> NoMsg]]
-  /\ UNCHANGED <<wire, eof, script, env, qclosed, cs, S, table, B, bclosed, mb, subs, released, pasked, pres, crashed>>
+  /\ UNCHANGED <<wire, eof, script, qclosed, cs, S, table, B, bclosed, mb, subs, released, pasked, out, pres, crashed>>
 RdClose(c) ==         \* read error -> closeWith: Lock; every handler detached, its closer and close(queue) in a
                       \* goroutine; Unlock (what the closers of disconnect handlers do under signalsMutex: SignalLock.tla)
   /\ rd[c].pc = "read" /\ wire[c] = <<>> /\ c \in eof /\ H[c] = NoG
   /\ qclosed' = qclosed \cup {c}
   /\ subs' = [o \in Objs |-> subs[o] \ {c}]
   /\ rd' = [rd EXCEPT ![c].pc = "closed"]
-  /\ UNCHANGED <<wire, eof, script, env, H, Q, cs, S, table, B, bclosed, mb, released, pasked, pres, crashed>>
-RdStep(c) == ~crashed /\ (RdTake(c) \/ RdDispatch(c) \/ RdWait(c) \/ RdClose(c))
+  /\ UNCHANGED <<wire, eof, script, H, Q, cs, S, table, B, bclosed, mb, released, pasked, out, pres, crashed>>
+RdStep(c) == ~crashed /\ (RdDispatch(c) \/ RdWait(c) \/ RdClose(c))
 
 -----------------------------------------------------------------------------
 (* the consumer goroutine of connection c: firewall, Router.Receive, serviceImpl.Receive *)
@@ -197,11 +197,11 @@ CsTake(c) ==          \* for msg := range consumer; the firewall passes (authent
   /\ cs[c].pc = "idle" /\ Q[c] # <<>>
   /\ cs' = [cs EXCEPT ![c] = [pc |-> "rlock", m |-> Head(Q[c])]]
   /\ Q' = [Q EXCEPT ![c] = Tail(@)]
-  /\ UNCHANGED <<wire, eof, script, env, rd, H, qclosed, S, table, B, bclosed, mb, subs, released, pasked, pres, crashed>>
+  /\ UNCHANGED <<wire, eof, script, rd, H, qclosed, S, table, B, bclosed, mb, subs, released, pasked, out, pres, crashed>>
 CsExit(c) ==          \* the queue is closed and empty
   /\ cs[c].pc = "idle" /\ Q[c] = <<>> /\ c \in qclosed
   /\ cs' = [cs EXCEPT ![c].pc = "exit"]
-  /\ UNCHANGED <<wire, eof, script, env, rd, H, Q, qclosed, S, table, B, bclosed, mb, subs, released, pasked, pres, crashed>>
+  /\ UNCHANGED <<wire, eof, script, rd, H, Q, qclosed, S, table, B, bclosed, mb, subs, released, pasked, out, pres, crashed>>
 CsLookup(c) ==        \* s.RLock() - not while a writer is pending or active; box, ok := s.boxes[id]; s.RUnlock();
                       \* !ok -> error answer.  The read section contains no blocking step: one step (the deviation keeps
                       \* the read lock until the enqueue has returned)
@@ -214,7 +214,7 @@ CsLookup(c) ==        \* s.RLock() - not while a writer is pending or active; bo
        ELSE /\ cs' = [cs EXCEPT ![c] = [pc |-> "idle", m |-> NoMsg]]
             /\ pres' = Answer(m, "notfound")
             /\ UNCHANGED S
-  /\ UNCHANGED <<wire, eof, script, env, rd, H, Q, qclosed, table, B, bclosed, mb, subs, released, pasked, crashed>>
+  /\ UNCHANGED <<wire, eof, script, rd, H, Q, qclosed, table, B, bclosed, mb, subs, released, pasked, out, crashed>>
 CsEnq(c) ==           \* box <- NewMail(m, from): waits for room
   /\ cs[c].pc = "enq"
   /\ LET m == cs[c].m IN
@@ -230,7 +230,7 @@ CsEnq(c) ==           \* box <- NewMail(m, from): waits for room
               /\ cs' = [cs EXCEPT ![c] = [pc |-> "exit", m |-> NoMsg]]
               /\ S' = [S EXCEPT !.readers = @ \ {Cs(c)}]
               /\ UNCHANGED <<B, crashed>>
-  /\ UNCHANGED <<wire, eof, script, env, rd, H, Q, qclosed, table, bclosed, mb, subs, released, pasked, pres>>
+  /\ UNCHANGED <<wire, eof, script, rd, H, Q, qclosed, table, bclosed, mb, subs, released, pasked, out, pres>>
 CsStep(c) == ~crashed /\ (CsTake(c) \/ CsExit(c) \/ CsLookup(c) \/ CsEnq(c))
 
 -----------------------------------------------------------------------------
@@ -241,32 +241,39 @@ MbTake(o) ==          \* mail := <-box; r.Receive(mail.Msg, mail.From).  A call,
   /\ LET m == Head(B[o]) IN
        /\ mb' = [mb EXCEPT ![o] =
                 CASE m.k = "slow" -> IF released THEN [pc |-> "idle", m |-> NoMsg] ELSE [pc |-> "gate", m |-> m]
-                  [] m.k \in {"call", "post"} -> [pc |-> "idle", m |-> NoMsg]
+                  [] m.k = "call" -> IF m.c \in NoRead /\ out[m.c] >= OutCap THEN [pc |-> "send", m |-> m]   \* SendReply waits
+                                     ELSE [pc |-> "idle", m |-> NoMsg]
+                  [] m.k = "post" -> [pc |-> "idle", m |-> NoMsg]
                   [] m.k = "reg" -> [pc |-> "mkh", m |-> m]
                   [] m.k = "unreg" -> IF m.c \in subs[o] THEN [pc |-> "rmh", m |-> m] ELSE [pc |-> "idle", m |-> NoMsg]
                   [] m.k = "term" -> [pc |-> "w1", m |-> m]]
        /\ pres' = Answer(m, "reply")
+       /\ out' = IF m.k = "call" /\ m.c \in NoRead /\ out[m.c] < OutCap THEN [out EXCEPT ![m.c] = @ + 1] ELSE out
   /\ B' = [B EXCEPT ![o] = Tail(@)]
-  /\ UNCHANGED <<wire, eof, script, env, rd, H, Q, qclosed, cs, S, table, bclosed, subs, released, pasked, crashed>>
+  /\ UNCHANGED <<wire, eof, script, rd, H, Q, qclosed, cs, S, table, bclosed, subs, released, pasked, crashed>>
+MbSendFails(o) ==     \* the write to a socket nobody reads returns (with an error) when the connection is closed
+  /\ mb[o].pc = "send" /\ rd[mb[o].m.c].pc = "closed"
+  /\ mb' = [mb EXCEPT ![o] = [pc |-> "idle", m |-> NoMsg]]
+  /\ UNCHANGED <<wire, eof, script, rd, H, Q, qclosed, cs, S, table, B, bclosed, subs, released, pasked, out, pres, crashed>>
 MbGate(o) ==          \* the slow method returns once the environment lets it
   /\ mb[o].pc = "gate" /\ released
   /\ mb' = [mb EXCEPT ![o] = [pc |-> "idle", m |-> NoMsg]]
-  /\ UNCHANGED <<wire, eof, script, env, rd, H, Q, qclosed, cs, S, table, B, bclosed, subs, released, pasked, pres, crashed>>
+  /\ UNCHANGED <<wire, eof, script, rd, H, Q, qclosed, cs, S, table, B, bclosed, subs, released, pasked, out, pres, crashed>>
 MbMkh(o) ==           \* addSignalUser: from.EndPoint().MakeHandler(..): Lock, slot, Unlock; answer
   /\ mb[o].pc = "mkh" /\ H[mb[o].m.c] = NoG
   /\ subs' = [subs EXCEPT ![o] = @ \cup {mb[o].m.c}]
   /\ mb' = [mb EXCEPT ![o] = [pc |-> "idle", m |-> NoMsg]]
-  /\ UNCHANGED <<wire, eof, script, env, rd, H, Q, qclosed, cs, S, table, B, bclosed, released, pasked, pres, crashed>>
+  /\ UNCHANGED <<wire, eof, script, rd, H, Q, qclosed, cs, S, table, B, bclosed, released, pasked, out, pres, crashed>>
 MbRmh(o) ==           \* removeSignalUser: EndPoint().RemoveHandler(id): Lock, closer, Unlock; answer
   /\ mb[o].pc = "rmh" /\ H[mb[o].m.c] = NoG
   /\ subs' = [subs EXCEPT ![o] = @ \ {mb[o].m.c}]
   /\ mb' = [mb EXCEPT ![o] = [pc |-> "idle", m |-> NoMsg]]
-  /\ UNCHANGED <<wire, eof, script, env, rd, H, Q, qclosed, cs, S, table, B, bclosed, released, pasked, pres, crashed>>
+  /\ UNCHANGED <<wire, eof, script, rd, H, Q, qclosed, cs, S, table, B, bclosed, released, pasked, out, pres, crashed>>
 MbW1(o) ==            \* terminate -> Service.Remove(o): s.Lock(), first half: the writers' mutex; readers are shut out from now on
   /\ mb[o].pc = "w1" /\ S.w = NoG
   /\ S' = [S EXCEPT !.w = Mb(o)]
   /\ mb' = [mb EXCEPT ![o].pc = "w2"]
-  /\ UNCHANGED <<wire, eof, script, env, rd, H, Q, qclosed, cs, table, B, bclosed, subs, released, pasked, pres, crashed>>
+  /\ UNCHANGED <<wire, eof, script, rd, H, Q, qclosed, cs, table, B, bclosed, subs, released, pasked, out, pres, crashed>>
 MbW2(o) ==            \* second half: the readers inside have left; delete(objects), delete(boxes); Unlock
   /\ mb[o].pc = "w2" /\ S.readers = {}
   /\ S' = [S EXCEPT !.w = NoG]
@@ -274,7 +281,7 @@ MbW2(o) ==            \* second half: the readers inside have left; delete(objec
   /\ bclosed' = IF Dev_RemoveClosesMailbox /\ o \in table THEN bclosed \cup {o} ELSE bclosed
   /\ mb' = [mb EXCEPT ![o] = IF o \in table THEN [pc |-> "oterm", m |-> mb[o].m]
                              ELSE [pc |-> "idle", m |-> NoMsg]]         \* not in the table: error answer, no OnTerminate
-  /\ UNCHANGED <<wire, eof, script, env, rd, H, Q, qclosed, cs, B, subs, released, pasked, pres, crashed>>
+  /\ UNCHANGED <<wire, eof, script, rd, H, Q, qclosed, cs, B, subs, released, pasked, out, pres, crashed>>
 NextSub(o) == CHOOSE c \in subs[o] : TRUE
 MbOTerm(o) ==         \* obj.OnTerminate(): for every subscriber RemoveHandler on its end point; then the answer
   /\ mb[o].pc = "oterm"
@@ -284,8 +291,8 @@ MbOTerm(o) ==         \* obj.OnTerminate(): for every subscriber RemoveHandler o
        ELSE /\ H[NextSub(o)] = NoG
             /\ subs' = [subs EXCEPT ![o] = @ \ {NextSub(o)}]
             /\ UNCHANGED mb
-  /\ UNCHANGED <<wire, eof, script, env, rd, H, Q, qclosed, cs, S, table, B, bclosed, released, pasked, pres, crashed>>
-MbStep(o) == ~crashed /\ (MbTake(o) \/ MbGate(o) \/ MbMkh(o) \/ MbRmh(o) \/ MbW1(o) \/ MbW2(o) \/ MbOTerm(o))
+  /\ UNCHANGED <<wire, eof, script, rd, H, Q, qclosed, cs, S, table, B, bclosed, released, pasked, out, pres, crashed>>
+MbStep(o) == ~crashed /\ (MbTake(o) \/ MbSendFails(o) \/ MbGate(o) \/ MbMkh(o) \/ MbRmh(o) \/ MbW1(o) \/ MbW2(o) \/ MbOTerm(o))
 
 Next == \/ ~crashed /\ (Release \/ \E o \in Objs : PSend(o))
         \/ \E c \in Conns : RdStep(c) \/ CsStep(c)
@@ -316,13 +323,14 @@ WaitsFor(g) ==
       ELSE IF mb[o].pc = "w1" /\ S.w # NoG THEN {S.w}
       ELSE IF mb[o].pc = "w2" THEN S.readers
       ELSE {}
-RECURSIVE Iter(_, _)
-Iter(X, n) == IF n = 0 THEN X ELSE Iter(X \cup UNION {WaitsFor(h) : h \in X}, n - 1)
-Reach(g) == Iter(WaitsFor(g), Cardinality(G))
+WaitGraph == [g \in G |-> WaitsFor(g)]
+RECURSIVE Closure(_, _, _)
+Closure(W, X, n) == IF n = 0 THEN X ELSE Closure(W, X \cup UNION {W[h] : h \in X}, n - 1)
+ReachIn(W, g) == IF W[g] = {} THEN {} ELSE Closure(W, W[g], Cardinality(G) - 1)
 
 (* C12 *)
 (* no goroutine waits, directly or transitively, for a resource held by a goroutine that waits for it *)
-NoWaitCycle == \A g \in G : g \notin Reach(g)
+NoWaitCycle == LET W == WaitGraph IN \A g \in G : g \notin ReachIn(W, g)
 (* the blocking enqueue into a mailbox is never made with a lock held, and nobody waits for room in a queue with
    handlersMutex held *)
 Holds(g) == g \in S.readers \/ S.w = g \/ \E c \in Conns : H[c] = g
@@ -333,16 +341,22 @@ NoLockHeldWhileEnqueuing ==
    mailbox goroutine inside the slow method are consumers carrying a mail for that very object *)
 AtGate(h) == h[1] = "mb" /\ mb[h[2]].pc = "gate"
 SlowDelaysOnlyItsOwnMail ==
-  \A g \in G : \A h \in Reach(g) :
-     AtGate(h) => g[1] = "cs" /\ cs[g[2]].pc = "enq" /\ cs[g[2]].m.o = h[2]
+  (\E o \in Objs : mb[o].pc = "gate") =>
+    LET W == WaitGraph IN
+    \A g \in G : \A h \in ReachIn(W, g) :
+       AtGate(h) => g[1] = "cs" /\ cs[g[2]].pc = "enq" /\ cs[g[2]].m.o = h[2]
 ServerUp == ~crashed
 (* the other client, which never fills a queue, is never refused *)
 OtherNeverRefused == \A o \in Objs : pres[o] # "blocked"
 (* the other client is served: under fairness - the slow method is released at some point - every object it asks
    answers: a reply, or, for an object a terminate request names, any answer *)
 Served(o) == pres[o] = "reply" \/ (Named(o) /\ pres[o] # "")
-OthersServed == <>[](\A o \in Objs : Served(o))
+OthersServed == <>[](Cardinality(pasked) = PMax /\ \A o \in pasked : Served(o))
 
-(* export of the schedule (counterexamples of the deviations, replayed by the harness at the real capacities) *)
-Schedule == [script |-> script, eof |-> eof, env |-> env]
+(* export (configurations with a deviation on): the schedule of every state with a wait cycle / of every crash - what
+   the hostile client wrote on which connection, which objects the other client had asked.  The harness replays them at
+   the real capacities (a request of the script becomes a flood) against the real server. *)
+Schedule == [script |-> script, eof |-> eof, asked |-> pasked, released |-> released]
+ExportCycles == NoWaitCycle \/ PrintT(<<"X", ToJson(Schedule)>>)
+ExportCrashes == ServerUp \/ PrintT(<<"X", ToJson(Schedule)>>)
 =============================================================================
